@@ -48,6 +48,24 @@ theorem c16_filecache_remove (c : FileCfg) (d : CDir) (k : Str) (n cut : Nat) :
     r = readC c d k ∨ r = (none, none) :=
   remove_crash c d k n cut
 
+/-- **two crashes in a row** (flat cache directory): a `remove` that died anywhere, then a `store` that died anywhere (its steps
+computed from the directory the first crash left): the ORIGINAL entry, nothing, or the complete new entry -/
+theorem c16_filecache_two_crashes (c : FileCfg) (d : CDir) (st : CState) (ok : CodecAt c st) (n1 cut1 n2 cut2 : Nat) :
+    let d1 := crashAt execC n1 cut1 (removeStepsC c d st.metadata.query) d
+    let r := readC c (crashAt execC n2 cut2 (storeStepsC c d1 st) d1) st.metadata.query
+    r = readC c d st.metadata.query ∨ r = (none, none) ∨
+    r = (some { metadata := { st.metadata with status := ready }, data := st.data }, some { st.metadata with status := ready }) := by
+  intro d1 r
+  have h1 := c16_filecache_remove c d st.metadata.query n1 cut1
+  have h2 := c16_filecache_store c d1 st ok n2 cut2
+  simp only at h1 h2
+  rcases h2 with h2 | h2 | h2
+  · rcases h1 with h1 | h1
+    · exact Or.inl (h2.trans h1)
+    · exact Or.inr (Or.inl (h2.trans h1))
+  · exact Or.inr (Or.inl h2)
+  · exact Or.inr (Or.inr h2)
+
 /-- **other entries are unaffected** by a crash inside `store` (digest of the other key differs: md5 injective on the universe) -/
 theorem c16_filecache_store_frame (c : FileCfg) (d : CDir) (st : CState) (k' : Str) (hne : c.h k' ≠ c.h st.metadata.query) (n cut : Nat) :
     readC c (crashAt execC n cut (storeStepsC c d st) d) k' = readC c d k' :=
@@ -470,4 +488,4 @@ end Liquer.C16
 -- OBLIGATIONS: Liquer.C16.buffered_reads_as_writethrough Liquer.C16.buffered_laws Liquer.C16.protocols_close_before_rename Liquer.C16.protocols_open_undisturbed Liquer.C16.protocols_open_only_temporaries Liquer.C16.c16_unflushed_rename_publishes_empty
 -- OBLIGATIONS: Liquer.C16.c16_filecache_store_buffered Liquer.C16.c16_filecache_storeMeta_buffered Liquer.C16.c16_filecache_remove_buffered Liquer.C16.c16_filecache_frame_buffered
 -- OBLIGATIONS: Liquer.C16.c16_filestore_store_buffered Liquer.C16.c16_filestore_storeMeta_buffered Liquer.C16.c16_filestore_remove_buffered Liquer.C16.c16_filestore_frame_buffered
--- OBLIGATIONS: Liquer.C16.c16_storecache_on_filestore_store_buffered Liquer.C16.c16_storecache_on_filestore_storeMeta_buffered Liquer.C16.c16_storecache_on_filestore_remove_buffered Liquer.C16.c16_storecache_on_filestore_frame_buffered Liquer.C16.c16_storecache_on_filestore_two_crashes
+-- OBLIGATIONS: Liquer.C16.c16_storecache_on_filestore_store_buffered Liquer.C16.c16_storecache_on_filestore_storeMeta_buffered Liquer.C16.c16_storecache_on_filestore_remove_buffered Liquer.C16.c16_storecache_on_filestore_frame_buffered Liquer.C16.c16_storecache_on_filestore_two_crashes Liquer.C16.c16_filecache_two_crashes
